@@ -28,6 +28,9 @@ def run(ctx):
     ctx.rule('R-C06g', 'a "kernel timer armed" answer is true: a slot that is asked to arm a kernel timer for the poll deadline answers '
                        'non-zero only on paths on which the deadline was handed to the kernel (and that call did not fail); on every '
                        'other path it answers 0, so that the caller waits with the (zero) deadline itself', floor=1)
+    ctx.rule('R-C06h', 'the test that defers a re-registration is exact: the per-task round stamp and the round counter have one and the same '
+                       'integer type (width and signedness), and so has everything that carries a round value from one to the other or into '
+                       'their comparison (local, parameter or result of a helper, cast): no store or comparison truncates or changes sign', floor=4)
     ctx.section(lambda c: __import__('ivy.rules.c04', fromlist=['x']).keep_armed(c, 'R-C06f'))
     ctx.section(armed_answer)
     ctx.section(runner)
@@ -35,6 +38,7 @@ def run(ctx):
     ctx.section(register)
     ctx.section(fresh_stamp)
     ctx.section(batch_pointer)
+    ctx.section(exact_stamp)
 
 
 # --------------------------------------------------------------------------
@@ -511,3 +515,85 @@ def batch_pointer(ctx):
     for inst, ok, kw in sub:
         if kw.get('loc') in locs or relpath(kw.get('loc') or '') in locs:
             ctx.ob('R-C06e', inst, ok, **kw)
+
+
+# --------------------------------------------------------------------------
+# R-C06h: the stamp comparison is exact (integer types of the round values)
+# --------------------------------------------------------------------------
+
+def exact_stamp(ctx):
+    """`stamp == counter` means "this task already ran in the current round" only if a stamp can hold every value the counter takes
+    and the two are compared without conversion: otherwise, once the counter has left the range of the narrower type, a task that
+    ran this round is never recognised again and its re-registration joins the running batch (the loop spins without polling).
+    Necessary condition, on the types the facts record (layout of the records, type of every variable / member / cast / result):
+    T = integer type of the round counter;  the stamp member has type T and is a whole object;  in every exported context
+    (helpers inlined) every value node through which a round value flows into a stamp store, into a local that carries it on, or
+    into a comparison of a stamp value with a counter value has type T."""
+    prog = ctx.prog
+    h.bind(prog)
+    T = h.field_ctype(prog, h.COUNTER)
+    S = h.field_ctype(prog, h.STAMP)
+    sfd = h._member_type(prog, h.STAMP)
+    rec_loc = (prog.records.get(h.STAMP[0]) or {}).get('loc')
+    whole = h.field_whole(prog, h.STAMP) and h.field_whole(prog, h.COUNTER)
+    ctx.ob('R-C06h', 'round-stamp:same-integer-type-as-round-counter', T[0] == 'i' and S == T and whole, loc=rec_loc,
+           detail='%s.%s is `%s` (%s), %s.%s is %s%s: a stamp holds exactly the values of the round counter'
+                  % (h.STAMP[0], h.STAMP[1], sfd.get('type'), h.ctype_text(S), h.COUNTER[0], h.COUNTER[1], h.ctype_text(T),
+                     '' if whole else '; one of them shares its storage with another member (bit-field)'))
+
+    def exact(n):
+        t = h.node_type(n)
+        return t is not None and h.int_ctype(prog, t) == T
+
+    def wrong(x):
+        """the value nodes of x that are not of type T"""
+        return [n for n in h.value_nodes(x) if not exact(n)]
+
+    def show(ns):
+        return ', '.join(sorted({'%s is `%s`' % (h.describe_node(n), h.node_type(n)) for n in ns}))
+
+    # every function that reads or writes one of the two (also in a branch condition only)
+    owners = {f.q: f for f in roles.functions_with(prog, lambda e: any(k in (h.STAMP, h.COUNTER) for k in h.members(e)))}
+    stores, carried, compared = {}, {}, {}
+    for r in h.minimal_roots(prog, list(owners.values())):
+        g = h.inlined(prog, r)
+        rt = h.RoundTypes(prog, g)
+        for e in g.events():
+            if e['ev'] == 'store' and 'rhs' in e and last_member(e['lhs']) == h.STAMP:
+                lhs_bad = [n for n in h.value_nodes(e['lhs']) if not exact(n)]
+                stores.setdefault((h.origin_fn(prog, g, e).name, e['loc']), []).append((r, e, lhs_bad + wrong(e['rhs'])))
+            elif e['ev'] == 'enter':
+                # a round value bound to a parameter of an inlined helper (the parameter itself is substituted away)
+                for q in e.get('targets', ()):
+                    t = prog.funcs.get(q)
+                    for p, a in zip(t.params if t else (), e.get('args', ())):
+                        if rt.tags(a) and '*' not in p.get('type', '') and 'record' not in p:
+                            bad = ([{'k': 'var', 'name': '%s (parameter of %s)' % (p['name'], t.name), 'type': p['type']}]
+                                   if h.int_ctype(prog, p['type']) != T else []) + wrong(a)
+                            carried.setdefault((h.origin_fn(prog, g, e).name, e['loc'], t.name + ':' + p['name']), []).append((r, e, bad))
+        for n, evs in rt.defs.items():
+            for e in evs:
+                bad = [x for x in h.value_nodes(e['lhs']) if not exact(x)] + wrong(e['rhs'])
+                carried.setdefault((h.origin_fn(prog, g, e).name, e['loc'], 'result' if n.startswith('$ret') else n.split('@')[0].split('~')[0]), []).append((r, e, bad))
+        for (b, loc, e) in rt.comparisons():
+            o = h.origin_fn(prog, g, e).name if e is not None else r.name
+            compared.setdefault((o, loc), []).append((r, b, wrong(b.get('l')) + wrong(b.get('r'))))
+    if not stores:
+        raise AnalysisBroken('no store to the task round stamp found')
+    if not compared:
+        raise AnalysisBroken('no comparison of a task round stamp with the round counter found (the test that defers a re-registration)')
+    for (owner, loc), items in sorted(stores.items()):
+        bad = [n for it in items for n in it[2]]
+        ctx.ob('R-C06h', '%s:stamp-stored-exactly' % owner, not bad, loc=loc,
+               detail='%s: the stored value and everything it passes through (variable, cast, helper result) has the type of the round '
+                      'counter (%s)%s' % (describe(items[0][1]), h.ctype_text(T), (': ' + show(bad)) if bad else ''), fn=items[0][0].q)
+    for (owner, loc, what), items in sorted(carried.items(), key=lambda kv: (kv[0][0], str(kv[0][1]), kv[0][2])):
+        bad = [n for it in items for n in it[2]]
+        ctx.ob('R-C06h', '%s:round-carried-exactly:%s' % (owner, what), not bad, loc=loc,
+               detail='a round value (stamp / round counter) is copied into a local, parameter or helper result of the type of the round '
+                      'counter (%s) without conversion%s' % (h.ctype_text(T), (': ' + show(bad)) if bad else ''), fn=items[0][0].q)
+    for (owner, loc), items in sorted(compared.items(), key=lambda kv: (kv[0][0], str(kv[0][1]))):
+        bad = [n for it in items for n in it[2]]
+        ctx.ob('R-C06h', '%s:stamp-compared-exactly' % owner, not bad, loc=loc,
+               detail='a stamp value is compared with a round-counter value: both operands, and everything they pass through, have the '
+                      'type of the round counter (%s)%s' % (h.ctype_text(T), (': ' + show(bad)) if bad else ''), fn=items[0][0].q)
